@@ -113,7 +113,7 @@ PROPS = {
                        "only new+alloc (IM2, IM3), node fields Freeze except the two private cells (HE); (c) derived operators "
                        "and/iff/xor/exists/negate/or/compose evaluate to their names' truth tables (DT); (d) list operations "
                        "are seeded with the neutral element (FS). Not decided: Shannon expansion, the standard-triple "
-                       "rewriting in Ite::new, order handling — most of the property. Added: the apply cache cannot change a result (Lru get/insert/grow keep key, value and hash together, the BDD ite cache uses one key and one hash: GL1, GL2, GL4, GL5); label numbering never decides an ordering question (VO label-order). Added after the fourth seeding round: every function that looks a pointer up in a pointer-valued memo, returns the hit and inserts into the same memo applies the argument's sign the same way going in and coming out (MK1: hit returned as neg^r(X) means stored V and returned R on a miss satisfy R = neg^r(V), for each sign), and a memo entry shared by a node and its complement without sign adjustment is only allowed for a function that never returns its argument itself (MK2). Today's only instance is cond_with_alloc; the rule ranges over all functions, so a memo added to another traversal is checked too. Added: WC bdd-node — only var, ite_helper, cond_with_alloc and smooth_helper hand nodes to the BDD unique table: they are what establishes the variable order of an interned node, and a mis-ordered node makes later conditioning/quantification wrong. Added (round 9): DF - a label-indexed table (order positions, weights, watch lists, occurrence lists, vtree index) has no default entry: a checked lookup `get(label)` may refuse, but its missing case may not be papered over with a made-up entry shared by every unknown label (defaulting combinators; a `None` edge that reaches a normal return).",
+                       "rewriting in Ite::new, order handling — most of the property. Added: the apply cache cannot change a result (Lru get/insert/grow keep key, value and hash together, the BDD ite cache uses one key and one hash: GL1, GL2, GL4, GL5); label numbering never decides an ordering question (VO label-order). Added after the fourth seeding round: every function that looks a pointer up in a pointer-valued memo, returns the hit and inserts into the same memo applies the argument's sign the same way going in and coming out (MK1: hit returned as neg^r(X) means stored V and returned R on a miss satisfy R = neg^r(V), for each sign), and a memo entry shared by a node and its complement without sign adjustment is only allowed for a function that never returns its argument itself (MK2). Today's only instance is cond_with_alloc; the rule ranges over all functions, so a memo added to another traversal is checked too. Added: WC bdd-node — only var, ite_helper, cond_with_alloc and smooth_helper hand nodes to the BDD unique table: they are what establishes the variable order of an interned node, and a mis-ordered node makes later conditioning/quantification wrong. Added (round 9): DF - a label-indexed table (order positions, weights, watch lists, occurrence lists, vtree index) has no default entry: a checked lookup `get(label)` may refuse, but its missing case may not be papered over with a made-up entry shared by every unknown label (defaulting combinators; a `None` edge that reaches a normal return). Added (round 10): DI - a field initialised with a function of a sibling field (eagerly derived) is stored again by every method that changes the sibling, also through interior mutability; PA - a call that opens a scope (enter/begin/open/...) whose counterpart exists in the crate is followed by the counterpart on every path to a return. FS empty-list: or_lst / and_lst written through a combining helper give the neutral element for the empty list. SH6: condition_model may pass a literal over only when the diagram is constant or the variable is strictly before the root.",
     },
     "C03": {
         "level": "other",
@@ -129,7 +129,7 @@ PROPS = {
                        "a complemented pointer; primes are never sign-dependent (CP). Derived operators ite/iff/xor/exists/"
                        "negate/or/compose match their truth tables (DT); the standard-triple normalisation used by the SDD ite preserves "
                        "ite(f,g,h) (ST); a literal conditioned on its own variable is True iff polarity == value (SH). History immunity (IM, HE). Not decided: the vtree "
-                       "case analysis of and, cartesian-product shortcuts, conditioning's element recursion. Added: no ordering comparison of variable labels in SDD code - vtree positions decide (VO label-order); every implementor's compose satisfies the documented definition with g allowed to mention the variable (DT on overrides); the SDD ite/and caches use one key and one hash and the Lru keeps key/value/hash together (GL1, GL2, GL4). Added after the fourth seeding round: every function that looks a pointer up in a pointer-valued memo, returns the hit and inserts into the same memo applies the argument's sign the same way going in and coming out (MK1: hit returned as neg^r(X) means stored V and returned R on a miss satisfy R = neg^r(V), for each sign), and a memo entry shared by a node and its complement without sign adjustment is only allowed for a function that never returns its argument itself (MK2). There is no such memo in the SDD code today (floor 0); the rule ranges over all functions, so one that is added is checked. Ownership (WC sdd caches): the apply cache is keyed by the operands of a conjunction and the ite cache by a standard triple; neither key names the operation, so app_cache_* is used by `and` only and ite_cache_* by `ite` only (or by private helpers of those). A second operation filed under such keys is reported. Added: WC sdd-node — SDD decision nodes are built (unique_bdd / unique_or / canonicalize) only by the four and_* cases and condition, or by private helpers called only from those: they are what establishes that primes live under the left and subs under the right child of the node's vtree position; the constructors intern whatever they are handed. Added: CM — compression merges two elements only on equal subs and keeps the disjunction of *both* primes in the element that stays (a lost prime changes the function, not just the shape); RN3 exhaustive-primes — an operation leaves an element out only because its prime is empty, never on a test of its sub. Added (round 9): DF - a label-indexed table (order positions, weights, watch lists, occurrence lists, vtree index) has no default entry: a checked lookup `get(label)` may refuse, but its missing case may not be papered over with a made-up entry shared by every unknown label (defaulting combinators; a `None` edge that reaches a normal return). SH2 binary-case: a direct conditioning of a binary SDD node returns high(f) for value=true and low(f) for value=false for both signs (the accessors already apply the complement); the complement flag of the shared ITE tables (CP compl-flag) is part of this check because the SDD ite files its results there.",
+                       "case analysis of and, cartesian-product shortcuts, conditioning's element recursion. Added: no ordering comparison of variable labels in SDD code - vtree positions decide (VO label-order); every implementor's compose satisfies the documented definition with g allowed to mention the variable (DT on overrides); the SDD ite/and caches use one key and one hash and the Lru keeps key/value/hash together (GL1, GL2, GL4). Added after the fourth seeding round: every function that looks a pointer up in a pointer-valued memo, returns the hit and inserts into the same memo applies the argument's sign the same way going in and coming out (MK1: hit returned as neg^r(X) means stored V and returned R on a miss satisfy R = neg^r(V), for each sign), and a memo entry shared by a node and its complement without sign adjustment is only allowed for a function that never returns its argument itself (MK2). There is no such memo in the SDD code today (floor 0); the rule ranges over all functions, so one that is added is checked. Ownership (WC sdd caches): the apply cache is keyed by the operands of a conjunction and the ite cache by a standard triple; neither key names the operation, so app_cache_* is used by `and` only and ite_cache_* by `ite` only (or by private helpers of those). A second operation filed under such keys is reported. Added: WC sdd-node — SDD decision nodes are built (unique_bdd / unique_or / canonicalize) only by the four and_* cases and condition, or by private helpers called only from those: they are what establishes that primes live under the left and subs under the right child of the node's vtree position; the constructors intern whatever they are handed. Added: CM — compression merges two elements only on equal subs and keeps the disjunction of *both* primes in the element that stays (a lost prime changes the function, not just the shape); RN3 exhaustive-primes — an operation leaves an element out only because its prime is empty, never on a test of its sub. Added (round 9): DF - a label-indexed table (order positions, weights, watch lists, occurrence lists, vtree index) has no default entry: a checked lookup `get(label)` may refuse, but its missing case may not be papered over with a made-up entry shared by every unknown label (defaulting combinators; a `None` edge that reaches a normal return). SH2 binary-case: a direct conditioning of a binary SDD node returns high(f) for value=true and low(f) for value=false for both signs (the accessors already apply the complement); the complement flag of the shared ITE tables (CP compl-flag) is part of this check because the SDD ite files its results there. Added (round 10): DI - a field initialised with a function of a sibling field (eagerly derived) is stored again by every method that changes the sibling, also through interior mutability; PA - a call that opens a scope (enter/begin/open/...) whose counterpart exists in the crate is followed by the counterpart on every path to a return.",
     },
     "C06": {
         "level": "other",
@@ -146,7 +146,7 @@ PROPS = {
                        "initially unsatisfiable CNF map to the false constant (DP); one residual-hash key for cache lookup and "
                        "insert, taken before the level's decisions (GL4); no public function leaves scratch set (SP1). Not "
                        "decided: soundness of component caching by residual hash, that models are exactly the CNF's, "
-                       "path-wise decomposability. Added: each branch conjoins all of difference_iter except the decided variable (TD); the solver constructor treats an empty clause as a conflict, a unit clause as one queued literal and a longer clause as two watches (EC); no label-order comparison in the top-down builder (VO label-order). Added: LP — the bit-field packing of Literal (known-bits/provenance analysis of the generated accessors): the label and polarity fields do not overlap, each setter writes exactly what its getter reads, label(new(l,p)) = l and polarity(new(l,p)) = p, and negated/implies_true/implies_false equal their definitions by truth table. Added: MK — any memo over signed pointers (a composite key with a pointer component included) applies the sign symmetrically on lookup and insert; VO level-arg — every `level` argument of the top-down recursion is a level of the variable order (a constant start, level + 1), never an index found in label space. Added: UG — an assignment made during unit propagation is made to an unassigned variable: every PartialModel::set(label(l), _) is dominated by get(label(l)) == None for the same literal, or l is a parameter and every call site passes a literal guarded that way or drawn from the clause's unassigned literals. Added: EM — the solver the top-down compiler starts from copes with an empty clause and with the empty formula. Added (round 9): DF - a label-indexed table (order positions, weights, watch lists, occurrence lists, vtree index) has no default entry: a checked lookup `get(label)` may refuse, but its missing case may not be papered over with a made-up entry shared by every unknown label (defaulting combinators; a `None` edge that reaches a normal return). WC watch-tables: only the propagation (UnitPropagate::new / decide and their private helpers) reads the watch tables - under two-literal watching `not watched` does not mean `unconstrained`, so an accessor that lets the compiler ask them is reported.",
+                       "path-wise decomposability. Added: each branch conjoins all of difference_iter except the decided variable (TD); the solver constructor treats an empty clause as a conflict, a unit clause as one queued literal and a longer clause as two watches (EC); no label-order comparison in the top-down builder (VO label-order). Added: LP — the bit-field packing of Literal (known-bits/provenance analysis of the generated accessors): the label and polarity fields do not overlap, each setter writes exactly what its getter reads, label(new(l,p)) = l and polarity(new(l,p)) = p, and negated/implies_true/implies_false equal their definitions by truth table. Added: MK — any memo over signed pointers (a composite key with a pointer component included) applies the sign symmetrically on lookup and insert; VO level-arg — every `level` argument of the top-down recursion is a level of the variable order (a constant start, level + 1), never an index found in label space. Added: UG — an assignment made during unit propagation is made to an unassigned variable: every PartialModel::set(label(l), _) is dominated by get(label(l)) == None for the same literal, or l is a parameter and every call site passes a literal guarded that way or drawn from the clause's unassigned literals. Added: EM — the solver the top-down compiler starts from copes with an empty clause and with the empty formula. Added (round 9): DF - a label-indexed table (order positions, weights, watch lists, occurrence lists, vtree index) has no default entry: a checked lookup `get(label)` may refuse, but its missing case may not be papered over with a made-up entry shared by every unknown label (defaulting combinators; a `None` edge that reaches a normal return). WC watch-tables: only the propagation (UnitPropagate::new / decide and their private helpers) reads the watch tables - under two-literal watching `not watched` does not mean `unconstrained`, so an accessor that lets the compiler ask them is reported. Added (round 10): DI - a field initialised with a function of a sibling field (eagerly derived) is stored again by every method that changes the sibling, also through interior mutability; PA - a call that opens a scope (enter/begin/open/...) whose counterpart exists in the crate is followed by the counterpart on every path to a return. DN - conditioning a decision-DNNF has no order-based cut-off (the diagram is not ordered: implied literals sit above earlier variables). UG - a reachable entry point that assigns its literal without asking the model is reported.",
     },
     "C07": {
         "level": "other",
@@ -158,7 +158,7 @@ PROPS = {
                        "evaluate encodes an assignment as (low=!b, high=b) (DP); the folds hand effective children to the "
                        "callback/recursion (CP on BddPtr::fold, bdd_fold_h, SddPtr::fold); the dual-polarity memo is written and "
                        "read in the slot of the pointer's own polarity (MS); accumulators are seeded with the semiring "
-                       "identities (FS). Not decided: the numeric identity itself, order/vtree independence. Added: WmcParams.var_to_val, a table indexed by label, is only grown by push and updated through index_mut (LT). Added: WT — the weight table is filled and read entry-for-entry: WmcParams::new stores each key's own value, set_weight(l, low, high) stores (low, high) at l and pads with None exactly while the index is out of range, var_weight reads its label's entry, assignment_weight takes .1 for a true and .0 for a false literal of the literal's own label. Added: IC — the weight table, indexed by label, is sized by a label bound (largest label + 1), not by the number of entries of the map it is built from (defect D10, repaired). Added: counting assumes an ordered diagram (each variable at most once per path): only the operations that establish the order intern BDD nodes (WC bdd-node) and none of them orders variables by label (VO label-order) Added (round 9): DF - a label-indexed table (order positions, weights, watch lists, occurrence lists, vtree index) has no default entry: a checked lookup `get(label)` may refuse, but its missing case may not be papered over with a made-up entry shared by every unknown label (defaulting combinators; a `None` edge that reaches a normal return). MS derived-read: the fold never returns a value computed from the other polarity's memo entry (no function of f's value gives the value of not-f for every value type and weight).",
+                       "identities (FS). Not decided: the numeric identity itself, order/vtree independence. Added: WmcParams.var_to_val, a table indexed by label, is only grown by push and updated through index_mut (LT). Added: WT — the weight table is filled and read entry-for-entry: WmcParams::new stores each key's own value, set_weight(l, low, high) stores (low, high) at l and pads with None exactly while the index is out of range, var_weight reads its label's entry, assignment_weight takes .1 for a true and .0 for a false literal of the literal's own label. Added: IC — the weight table, indexed by label, is sized by a label bound (largest label + 1), not by the number of entries of the map it is built from (defect D10, repaired). Added: counting assumes an ordered diagram (each variable at most once per path): only the operations that establish the order intern BDD nodes (WC bdd-node) and none of them orders variables by label (VO label-order) Added (round 9): DF - a label-indexed table (order positions, weights, watch lists, occurrence lists, vtree index) has no default entry: a checked lookup `get(label)` may refuse, but its missing case may not be papered over with a made-up entry shared by every unknown label (defaulting combinators; a `None` edge that reaches a normal return). MS derived-read: the fold never returns a value computed from the other polarity's memo entry (no function of f's value gives the value of not-f for every value type and weight). Added (round 10): DI - a field initialised with a function of a sibling field (eagerly derived) is stored again by every method that changes the sibling, also through interior mutability; PA - a call that opens a scope (enter/begin/open/...) whose counterpart exists in the crate is followed by the counterpart on every path to a return. LAW mul-pairs-complete: the polynomial product's loop bounds and guards, evaluated for concrete lengths, run the write for exactly the pairs i<len1, j<len2, i+j<MAX_COEFFS. WC hash-memo: the pure query semantic_hash does not go through the per-node cell.",
     },
     "C08": {
         "level": "other",
@@ -167,7 +167,7 @@ PROPS = {
         "explanation": "Level bookkeeping of smooth_helper: every node built is labelled with var_at_level(current) or with a "
                        "node variable that a dominating test equates with it, children recurse one level down, smooth starts "
                        "at level 0 (SL); the complemented arm is sign-coherent (CP); callers count on smooth(_, num_vars) "
-                       "(SL2). Not decided: equality of the count with the brute-force sum. Added: IC — the weight table, indexed by label, is sized by a label bound (largest label + 1), not by the number of entries of the map it is built from (defect D10, repaired). Added: LT/WT — the weight table the count of the smoothed diagram reads keeps its label indexing (growth only: a resize is guarded by, or takes the maximum with, the current length) and is filled and read entry-for-entry. Added: NB — finite-field weights stay inside u128 for every exported prime and, since the type is generic in its modulus, for every modulus its own addition supports (P <= 2^127), loop bodies and left shifts included. Added after the seventh seeding round: the count taken on the smoothed diagram is a fold over per-node memos, so the traversal discipline it rests on is part of this check — what the fold descends below is marked, so the clearing walk that stops at an unmarked node is complete (SP1, SP2), the two-polarity memo is read and written in the slot of the pointer's own polarity (MS), the literal weights are paired with the matching children (SH5): a second count of a smoothed diagram with other weights must not see the first one's values. Added (round 9): DF - a label-indexed table (order positions, weights, watch lists, occurrence lists, vtree index) has no default entry: a checked lookup `get(label)` may refuse, but its missing case may not be papered over with a made-up entry shared by every unknown label (defaulting combinators; a `None` edge that reaches a normal return). GL6/GL9 of the BDD code are part of this check: a memo on the smoothing path is fresh per call or keyed by everything the result depends on (level *and* width).",
+                       "(SL2). Not decided: equality of the count with the brute-force sum. Added: IC — the weight table, indexed by label, is sized by a label bound (largest label + 1), not by the number of entries of the map it is built from (defect D10, repaired). Added: LT/WT — the weight table the count of the smoothed diagram reads keeps its label indexing (growth only: a resize is guarded by, or takes the maximum with, the current length) and is filled and read entry-for-entry. Added: NB — finite-field weights stay inside u128 for every exported prime and, since the type is generic in its modulus, for every modulus its own addition supports (P <= 2^127), loop bodies and left shifts included. Added after the seventh seeding round: the count taken on the smoothed diagram is a fold over per-node memos, so the traversal discipline it rests on is part of this check — what the fold descends below is marked, so the clearing walk that stops at an unmarked node is complete (SP1, SP2), the two-polarity memo is read and written in the slot of the pointer's own polarity (MS), the literal weights are paired with the matching children (SH5): a second count of a smoothed diagram with other weights must not see the first one's values. Added (round 9): DF - a label-indexed table (order positions, weights, watch lists, occurrence lists, vtree index) has no default entry: a checked lookup `get(label)` may refuse, but its missing case may not be papered over with a made-up entry shared by every unknown label (defaulting combinators; a `None` edge that reaches a normal return). GL6/GL9 of the BDD code are part of this check: a memo on the smoothing path is fresh per call or keyed by everything the result depends on (level *and* width). Added (round 10): DI - a field initialised with a function of a sibling field (eagerly derived) is stored again by every method that changes the sibling, also through interior mutability; PA - a call that opens a scope (enter/begin/open/...) whose counterpart exists in the crate is followed by the counterpart on every path to a return.",
     },
     "C10": {
         "level": "proof",
@@ -180,7 +180,7 @@ PROPS = {
                        "graph); what a BDD traversal descends below is marked, so the short-circuiting clear is complete "
                        "(SP2); memo read/write types agree (SP3). Trusted: unwinding ignored (a panicking user callback leaves "
                        "scratch set). Not decided: which answer is returned. Added: should an SDD clear_scratch start to short-circuit on its own slot, every SDD traversal must mark each node it descends from (SP2 extended; today the SDD clear descends unconditionally). Added after the fourth seeding round: the count and evaluate are *exactly* a fold of the diagram with a callback that reads only the weights (DP unsmoothed_wmc:fold, evaluate:via-count) — a count that first consults any other state (a last-result memo in the weight object) is not that term.",
-        "assumptions": ["panics/unwinding are not modelled", "call-graph resolution by rustc Instance::try_resolve; generic trait calls dispatch to all local impls Added (round 9): WC hash-memo - the per-node hash cell behind cached_semantic_hash is keyed by nothing, so only its owners (the hash-identified builders with their one map, and the memoised recursion) may go through it; the pure query semantic_hash must not."],
+        "assumptions": ["panics/unwinding are not modelled", "call-graph resolution by rustc Instance::try_resolve; generic trait calls dispatch to all local impls Added (round 9): WC hash-memo - the per-node hash cell behind cached_semantic_hash is keyed by nothing, so only its owners (the hash-identified builders with their one map, and the memoised recursion) may go through it; the pure query semantic_hash must not. Added (round 10): DI - a field initialised with a function of a sibling field (eagerly derived) is stored again by every method that changes the sibling, also through interior mutability; PA - a call that opens a scope (enter/begin/open/...) whose counterpart exists in the crate is followed by the counterpart on every path to a return."],
     },
     "C11": {
         "level": "other",
@@ -191,7 +191,7 @@ PROPS = {
                        "found under the negated hash is returned complemented, in both semantic builders (CP-hash); the per-node "
                        "hash cache has one writer (IM5); field arithmetic stays in range for every exported prime (NB); hash "
                        "maps are sized by variable counts (IC). Not decided: that the hash is determined by the function "
-                       "(an algebraic identity over a random point), collision freedom, correctness of the semantic builders. Added: a hash hit is returned exactly as found and the semantic SDD builder decides equality by hashes on every path (SE1, SE2). Added after the fourth seeding round: the unique table compares the *whole* stored hash with the requested one before it returns a stored node (GL3 return-found); in by-hash mode that comparison is the only identity test the semantic builders have. Ownership (WC sdd caches): the apply cache is keyed by the operands of a conjunction and the ite cache by a standard triple; neither key names the operation, so app_cache_* is used by `and` only and ite_cache_* by `ite` only (or by private helpers of those). A second operation filed under such keys is reported. Added: WC sdd-node — the hash-identified SDD builder returns correct diagrams for quantification and conditioning only if decision nodes are built by the operations that establish which vtree side primes and subs live on. Added (round 9): DF - a label-indexed table (order positions, weights, watch lists, occurrence lists, vtree index) has no default entry: a checked lookup `get(label)` may refuse, but its missing case may not be papered over with a made-up entry shared by every unknown label (defaulting combinators; a `None` edge that reaches a normal return). WC hash-memo (see C10).",
+                       "(an algebraic identity over a random point), collision freedom, correctness of the semantic builders. Added: a hash hit is returned exactly as found and the semantic SDD builder decides equality by hashes on every path (SE1, SE2). Added after the fourth seeding round: the unique table compares the *whole* stored hash with the requested one before it returns a stored node (GL3 return-found); in by-hash mode that comparison is the only identity test the semantic builders have. Ownership (WC sdd caches): the apply cache is keyed by the operands of a conjunction and the ite cache by a standard triple; neither key names the operation, so app_cache_* is used by `and` only and ite_cache_* by `ite` only (or by private helpers of those). A second operation filed under such keys is reported. Added: WC sdd-node — the hash-identified SDD builder returns correct diagrams for quantification and conditioning only if decision nodes are built by the operations that establish which vtree side primes and subs live on. Added (round 9): DF - a label-indexed table (order positions, weights, watch lists, occurrence lists, vtree index) has no default entry: a checked lookup `get(label)` may refuse, but its missing case may not be papered over with a made-up entry shared by every unknown label (defaulting combinators; a `None` edge that reaches a normal return). WC hash-memo (see C10). Added (round 10): DI - a field initialised with a function of a sibling field (eagerly derived) is stored again by every method that changes the sibling, also through interior mutability; PA - a call that opens a scope (enter/begin/open/...) whose counterpart exists in the crate is followed by the counterpart on every path to a return. DN (see C06); GL4 - the component cache is per compilation.",
     },
     "C02": {
         "level": "other",
@@ -206,7 +206,7 @@ PROPS = {
                        "logical operations reduce (low == high returns the child) and normalise the high edge before "
                        "interning (RN1, RN2); nodes enter only through the table and pointer variants are built only from "
                        "table results or existing nodes (IM3, IM4). Not decided: the iff between pointer and function "
-                       "equality in general, order-respect on every path, robin-hood probe-length arithmetic. Added: the standard-triple normalisation denotes ite(f,g,h) on all 8-valuation paths (ST) - a wrong triple makes results of one function differ; BddNode's Ord pairs the structural fields (HE ord-fields). Added after the fourth seeding round: ite_helper splits on first_essential(f,g,h) — the earliest top variable of all three operands — and builds the node from the cofactors on that variable (SH1); the LRU apply cache writes key, value and hash of a slot together and re-inserts whole elements on growth (GL2), so an eviction cannot leave a key paired with another key's value. Ownership (WC bdd-node): BddBuilder::get_or_insert interns whatever it is handed; that a node respects the variable order is established only by its callers - var, ite_helper, cond_with_alloc, smooth_helper (or private helpers called only from them). Any other caller is reported: it would have to bring its own ordering argument. Added (round 9): DF - a label-indexed table (order positions, weights, watch lists, occurrence lists, vtree index) has no default entry: a checked lookup `get(label)` may refuse, but its missing case may not be papered over with a made-up entry shared by every unknown label (defaulting combinators; a `None` edge that reaches a normal return). RH also checks the probe length the evicted resident continues with (propagate's seed against its call sites) and propagate's first probed slot against the home slots grow hands in.",
+                       "equality in general, order-respect on every path, robin-hood probe-length arithmetic. Added: the standard-triple normalisation denotes ite(f,g,h) on all 8-valuation paths (ST) - a wrong triple makes results of one function differ; BddNode's Ord pairs the structural fields (HE ord-fields). Added after the fourth seeding round: ite_helper splits on first_essential(f,g,h) — the earliest top variable of all three operands — and builds the node from the cofactors on that variable (SH1); the LRU apply cache writes key, value and hash of a slot together and re-inserts whole elements on growth (GL2), so an eviction cannot leave a key paired with another key's value. Ownership (WC bdd-node): BddBuilder::get_or_insert interns whatever it is handed; that a node respects the variable order is established only by its callers - var, ite_helper, cond_with_alloc, smooth_helper (or private helpers called only from them). Any other caller is reported: it would have to bring its own ordering argument. Added (round 9): DF - a label-indexed table (order positions, weights, watch lists, occurrence lists, vtree index) has no default entry: a checked lookup `get(label)` may refuse, but its missing case may not be papered over with a made-up entry shared by every unknown label (defaulting combinators; a `None` edge that reaches a normal return). RH also checks the probe length the evicted resident continues with (propagate's seed against its call sites) and propagate's first probed slot against the home slots grow hands in. Added (round 10): DI - a field initialised with a function of a sibling field (eagerly derived) is stored again by every method that changes the sibling, also through interior mutability; PA - a call that opens a scope (enter/begin/open/...) whose counterpart exists in the crate is followed by the counterpart on every path to a return.",
     },
     "C04": {
         "level": "other",
@@ -216,7 +216,7 @@ PROPS = {
                        "sign-normalise, intern: RN3), Hash/Eq agreement of BinarySDD/SddOr/SddAnd and identity Hash/Eq of "
                        "SddPtr (HE), the shared unique-table rules (GL3, TS-OCC), nodes enter only through the tables (IM4). "
                        "Not decided: that primes form a partition, stay on their vtree side, that no smaller equivalent "
-                       "exists — semantic facts about run-time element lists. Added: the hand-written Ord of BinarySDD/SddOr/SddAnd (the sort key of unique_or) pairs self.F with other.F for exactly the structural fields (HE ord-fields); only canonicalize implementations and and_indep may call unique_or, which neither trims nor compresses (RN3 unique_or-caller). Added: WC sdd-node — SDD decision nodes are built (unique_bdd / unique_or / canonicalize) only by the four and_* cases and condition, or by private helpers called only from those: they are what establishes that primes live under the left and subs under the right child of the node's vtree position; the constructors intern whatever they are handed. Added (round 9): DF - a label-indexed table (order positions, weights, watch lists, occurrence lists, vtree index) has no default entry: a checked lookup `get(label)` may refuse, but its missing case may not be papered over with a made-up entry shared by every unknown label (defaulting combinators; a `None` edge that reaches a normal return). RH displaced-keeps-length / grow vs propagate's start slot (see C02).",
+                       "exists — semantic facts about run-time element lists. Added: the hand-written Ord of BinarySDD/SddOr/SddAnd (the sort key of unique_or) pairs self.F with other.F for exactly the structural fields (HE ord-fields); only canonicalize implementations and and_indep may call unique_or, which neither trims nor compresses (RN3 unique_or-caller). Added: WC sdd-node — SDD decision nodes are built (unique_bdd / unique_or / canonicalize) only by the four and_* cases and condition, or by private helpers called only from those: they are what establishes that primes live under the left and subs under the right child of the node's vtree position; the constructors intern whatever they are handed. Added (round 9): DF - a label-indexed table (order positions, weights, watch lists, occurrence lists, vtree index) has no default entry: a checked lookup `get(label)` may refuse, but its missing case may not be papered over with a made-up entry shared by every unknown label (defaulting combinators; a `None` edge that reaches a normal return). RH displaced-keeps-length / grow vs propagate's start slot (see C02). Added (round 10): DI - a field initialised with a function of a sibling field (eagerly derived) is stored again by every method that changes the sibling, also through interior mutability; PA - a call that opens a scope (enter/begin/open/...) whose counterpart exists in the crate is followed by the counterpart on every path to a return.",
     },
     "C05": {
         "level": "other",
@@ -231,7 +231,7 @@ PROPS = {
                        "with the empty clause false (DP; none of these arms is executed by the test-suite); empty-formula / "
                        "empty-clause / satisfied-literal shortcuts and accumulator seeds of the CNF compilers (FS); the "
                        "default `or` is De Morgan (DT). Not decided: that clause sorting and merge orders preserve the "
-                       "function (and is AC, which is C01's business). Added: compile_cnf_with_assignments treats a literal by its status under the assignment only (satisfied: clause becomes true; falsified: dropped; unassigned: disjoined), checked over all (assignment, polarity) cases (LC). Added after the fourth seeding round: DTree::from_cnf turns every clause into a leaf (NC: every iteration of a loop over the items pushes onto its accumulator; an iterator chain from the items to collect() has no filter/skip/take/dedup) - a dropped clause gives the result extra models while everything downstream stays consistent. Ownership (WC bdd-node): BddBuilder::get_or_insert interns whatever it is handed; that a node respects the variable order is established only by its callers - var, ite_helper, cond_with_alloc, smooth_helper (or private helpers called only from them). Any other caller is reported: it would have to bring its own ordering argument. Added: LP — the bit-field packing of Literal (known-bits/provenance analysis of the generated accessors): the label and polarity fields do not overlap, each setter writes exactly what its getter reads, label(new(l,p)) = l and polarity(new(l,p)) = p, and negated/implies_true/implies_false equal their definitions by truth table. Added: the SDD ite that compile_logical_expr goes through stores in its cache what it returns (GL4/GL11), and no BDD-builder function orders variables by their labels (VO label-order; compiling under a partial assignment = compiling and conditioning relies on condition_model's early exits) Added: EM — empty cases by abstract evaluation under the assumption that one collection is empty (loops over it do not run, len = 0, pop/last/next = None): the empty formula and an empty clause through Cnf::new / eval, and the empty formula through DTree::from_cnf — the latter panics in DTree::balanced (known finding, not repaired: a DTree cannot represent 'no clauses'). Added (round 9): PM - the partial model handed to compile_cnf_with_assignments / condition_model keeps its two-set invariant (set clears the opposite polarity).",
+                       "function (and is AC, which is C01's business). Added: compile_cnf_with_assignments treats a literal by its status under the assignment only (satisfied: clause becomes true; falsified: dropped; unassigned: disjoined), checked over all (assignment, polarity) cases (LC). Added after the fourth seeding round: DTree::from_cnf turns every clause into a leaf (NC: every iteration of a loop over the items pushes onto its accumulator; an iterator chain from the items to collect() has no filter/skip/take/dedup) - a dropped clause gives the result extra models while everything downstream stays consistent. Ownership (WC bdd-node): BddBuilder::get_or_insert interns whatever it is handed; that a node respects the variable order is established only by its callers - var, ite_helper, cond_with_alloc, smooth_helper (or private helpers called only from them). Any other caller is reported: it would have to bring its own ordering argument. Added: LP — the bit-field packing of Literal (known-bits/provenance analysis of the generated accessors): the label and polarity fields do not overlap, each setter writes exactly what its getter reads, label(new(l,p)) = l and polarity(new(l,p)) = p, and negated/implies_true/implies_false equal their definitions by truth table. Added: the SDD ite that compile_logical_expr goes through stores in its cache what it returns (GL4/GL11), and no BDD-builder function orders variables by their labels (VO label-order; compiling under a partial assignment = compiling and conditioning relies on condition_model's early exits) Added: EM — empty cases by abstract evaluation under the assumption that one collection is empty (loops over it do not run, len = 0, pop/last/next = None): the empty formula and an empty clause through Cnf::new / eval, and the empty formula through DTree::from_cnf — the latter panics in DTree::balanced (known finding, not repaired: a DTree cannot represent 'no clauses'). Added (round 9): PM - the partial model handed to compile_cnf_with_assignments / condition_model keeps its two-set invariant (set clears the opposite polarity). Added (round 10): DI - a field initialised with a function of a sibling field (eagerly derived) is stored again by every method that changes the sibling, also through interior mutability; PA - a call that opens a scope (enter/begin/open/...) whose counterpart exists in the crate is followed by the counterpart on every path to a return.",
     },
     "C09": {
         "level": "other",
@@ -243,7 +243,7 @@ PROPS = {
                        "literal use one side (WP); SATSolver::decide pushes exactly one state on non-UNSAT paths and none on "
                        "UNSAT, pop pops one, new leaves two (TS-STK) — the structural half of 'pop restores the previous "
                        "state'. Not decided: soundness and fixpoint of propagation in general, the satisfied flag, hash "
-                       "injectivity. Added: index spaces of the watch scheme - label / clause index / position in a watch list - are respected at all 32 uses (WS); the tautology filter ranges over all pairs because Literal's packed order is polarity-major (TF); clause-length cases of the constructor (EC); the PartialModel queries agree with the two-set definition (PM); watch tables keep their label indexing (LT). Added: the satisfied-clause scan of decide depends on the literal's status only (LC); the residual-hash update refers to one base state throughout (WP3). Added: LP — the bit-field packing of Literal (known-bits/provenance analysis of the generated accessors): the label and polarity fields do not overlap, each setter writes exactly what its getter reads, label(new(l,p)) = l and polarity(new(l,p)) = p, and negated/implies_true/implies_false equal their definitions by truth table. Added: UG — an assignment made during unit propagation is made to an unassigned variable: every PartialModel::set(label(l), _) is dominated by get(label(l)) == None for the same literal, or l is a parameter and every call site passes a literal guarded that way or drawn from the clause's unassigned literals. Added: EM — UnitPropagate::new on a CNF with an empty clause and SATSolver::new on the empty formula reach no panic, underflow or 0-divisor (abstract evaluation under the emptiness assumption). Added (round 9): DF - a label-indexed table (order positions, weights, watch lists, occurrence lists, vtree index) has no default entry: a checked lookup `get(label)` may refuse, but its missing case may not be papered over with a made-up entry shared by every unknown label (defaulting combinators; a `None` edge that reaches a normal return). UF - a clause the watcher scan finds with exactly one unassigned literal is propagated (recursion or work list) on every path before the scan goes on. WC watch-tables (see C06).",
+                       "injectivity. Added: index spaces of the watch scheme - label / clause index / position in a watch list - are respected at all 32 uses (WS); the tautology filter ranges over all pairs because Literal's packed order is polarity-major (TF); clause-length cases of the constructor (EC); the PartialModel queries agree with the two-set definition (PM); watch tables keep their label indexing (LT). Added: the satisfied-clause scan of decide depends on the literal's status only (LC); the residual-hash update refers to one base state throughout (WP3). Added: LP — the bit-field packing of Literal (known-bits/provenance analysis of the generated accessors): the label and polarity fields do not overlap, each setter writes exactly what its getter reads, label(new(l,p)) = l and polarity(new(l,p)) = p, and negated/implies_true/implies_false equal their definitions by truth table. Added: UG — an assignment made during unit propagation is made to an unassigned variable: every PartialModel::set(label(l), _) is dominated by get(label(l)) == None for the same literal, or l is a parameter and every call site passes a literal guarded that way or drawn from the clause's unassigned literals. Added: EM — UnitPropagate::new on a CNF with an empty clause and SATSolver::new on the empty formula reach no panic, underflow or 0-divisor (abstract evaluation under the emptiness assumption). Added (round 9): DF - a label-indexed table (order positions, weights, watch lists, occurrence lists, vtree index) has no default entry: a checked lookup `get(label)` may refuse, but its missing case may not be papered over with a made-up entry shared by every unknown label (defaulting combinators; a `None` edge that reaches a normal return). UF - a clause the watcher scan finds with exactly one unassigned literal is propagated (recursion or work list) on every path before the scan goes on. WC watch-tables (see C06). Added (round 10): DI - a field initialised with a function of a sibling field (eagerly derived) is stored again by every method that changes the sibling, also through interior mutability; PA - a call that opens a scope (enter/begin/open/...) whose counterpart exists in the crate is followed by the counterpart on every path to a return. UG for reachable entry points (see C06).",
     },
     "C12": {
         "level": "other",
@@ -263,7 +263,7 @@ PROPS = {
                        "two-set definition (PM). NOT decided (and not claimed): that the bound is admissible and the result a true "
                        "optimum for given floating-point weights, MEU's side conditions on utilities and variable order - numerical "
                        "facts about run-time values.",
-        "assumptions": ["the weights satisfy the property's stated domain; admissibility of the bound is not analysed Added (round 9): BB7 also covers returns of the drivers that do not come from the search (a shortcut for a constant diagram): the pair must be (value of the assignment, that assignment)."],
+        "assumptions": ["the weights satisfy the property's stated domain; admissibility of the bound is not analysed Added (round 9): BB7 also covers returns of the drivers that do not come from the search (a shortcut for a constant diagram): the pair must be (value of the assignment, that assignment). Added (round 10): DI - a field initialised with a function of a sibling field (eagerly derived) is stored again by every method that changes the sibling, also through interior mutability; PA - a call that opens a scope (enter/begin/open/...) whose counterpart exists in the crate is followed by the counterpart on every path to a return."],
     },
     "C13": {
         "level": "other",
@@ -272,7 +272,7 @@ PROPS = {
                        "type invariant v in [0,P-1]: no u128 overflow/underflow (NB); every FiniteField literal is reduced "
                        "(NB-inv); subtraction borrows the modulus (NB-mod); polynomial coefficient writes are bounded by "
                        "MAX_COEFFS (NB-poly). Not decided: associativity, commutativity, distributivity, lattice laws of "
-                       "real/complex/Boolean/rational/expected-utility values. Added (round 9): MM - the double-and-add loop of mul_mod keeps the inductive invariant acc + mult*count = a*b (mod P): initial values, one iteration for either value of the low bit (count = 2q+bit, count' = q), exit with count = 0 returning acc - proved as polynomial identities on the loop's terms.",
+                       "real/complex/Boolean/rational/expected-utility values. Added (round 9): MM - the double-and-add loop of mul_mod keeps the inductive invariant acc + mult*count = a*b (mod P): initial values, one iteration for either value of the low bit (count = 2q+bit, count' = q), exit with count = 0 returning acc - proved as polynomial identities on the loop's terms. Added (round 10): DI - a field initialised with a function of a sibling field (eagerly derived) is stored again by every method that changes the sibling, also through interior mutability; PA - a call that opens a scope (enter/begin/open/...) whose counterpart exists in the crate is followed by the counterpart on every path to a return. LAW mul-pairs-complete (see C07).",
     },
     "C14": {
         "level": "other",
@@ -281,7 +281,7 @@ PROPS = {
                   ("NC", 1, has("DTree::from_cnf")), ("MF", 4, None), ("EM", 4, has("DTree::from_cnf", "force_order", "average_span", "interaction_graph")), ("FD", 2, None)],
         "explanation": "Dimension analysis (Index / Count / OneBased): every function called num_vars returns a count, every "
                        "num_vars field is initialised with a count, label-indexed table sizes are counts (IC). Not decided: "
-                       "permutation-ness of heuristic orders, dtree cutsets, LCA / in-order index arithmetic. Added: FORCE re-positions every variable in every round (no element-dropping adaptor in the pipeline: VO force_order); var_to_pos and vtree_index keep their label indexing (LT). Added after the fourth seeding round: DTree::from_cnf turns every clause into a leaf (NC: every iteration of a loop over the items pushes onto its accumulator; an iterator chain from the items to collect() has no filter/skip/take/dedup) - a dropped clause gives the result extra models while everything downstream stays consistent. Added: MF — the min-fill order is a permutation by construction: every iteration of the elimination loop records the stored weight of exactly the node it eliminates (not the node's index, which the graph library re-uses), elimination removes exactly that node, the interaction graph has one node per variable 0..num_vars, and the order is built from the recorded sequence. Added: EM — empty cases by abstract evaluation under the assumption that one collection is empty (loops over it do not run, len = 0, pop/last/next = None): FORCE and min-fill inputs without clauses or with an empty clause (defects D13, repaired), and DTree::from_cnf on the empty formula (known finding). Added (round 9): DF - a label-indexed table (order positions, weights, watch lists, occurrence lists, vtree index) has no default entry: a checked lookup `get(label)` may refuse, but its missing case may not be papered over with a made-up entry shared by every unknown label (defaulting combinators; a `None` edge that reaches a normal return). FD - the vtree derived from a dtree is built, on every return path, from the node's cutset and from each child vtree that exists, each exactly once, and None is returned only when nothing is left; right_linear_c keeps its continuation. VT covers DTree::balanced (the halves tile the list of subtrees). NC leaves-are-clauses ranges over every function of the dtree module. IC: a tally of visited items (leaves) is a number of distinct variables, not a bound on their labels.",
+                       "permutation-ness of heuristic orders, dtree cutsets, LCA / in-order index arithmetic. Added: FORCE re-positions every variable in every round (no element-dropping adaptor in the pipeline: VO force_order); var_to_pos and vtree_index keep their label indexing (LT). Added after the fourth seeding round: DTree::from_cnf turns every clause into a leaf (NC: every iteration of a loop over the items pushes onto its accumulator; an iterator chain from the items to collect() has no filter/skip/take/dedup) - a dropped clause gives the result extra models while everything downstream stays consistent. Added: MF — the min-fill order is a permutation by construction: every iteration of the elimination loop records the stored weight of exactly the node it eliminates (not the node's index, which the graph library re-uses), elimination removes exactly that node, the interaction graph has one node per variable 0..num_vars, and the order is built from the recorded sequence. Added: EM — empty cases by abstract evaluation under the assumption that one collection is empty (loops over it do not run, len = 0, pop/last/next = None): FORCE and min-fill inputs without clauses or with an empty clause (defects D13, repaired), and DTree::from_cnf on the empty formula (known finding). Added (round 9): DF - a label-indexed table (order positions, weights, watch lists, occurrence lists, vtree index) has no default entry: a checked lookup `get(label)` may refuse, but its missing case may not be papered over with a made-up entry shared by every unknown label (defaulting combinators; a `None` edge that reaches a normal return). FD - the vtree derived from a dtree is built, on every return path, from the node's cutset and from each child vtree that exists, each exactly once, and None is returned only when nothing is left; right_linear_c keeps its continuation. VT covers DTree::balanced (the halves tile the list of subtrees). NC leaves-are-clauses ranges over every function of the dtree module. IC: a tally of visited items (leaves) is a number of distinct variables, not a bound on their labels. Added (round 10): DI - a field initialised with a function of a sibling field (eagerly derived) is stored again by every method that changes the sibling, also through interior mutability; PA - a call that opens a scope (enter/begin/open/...) whose counterpart exists in the crate is followed by the counterpart on every path to a return.",
     },
     "C15": {
         "level": "other",
@@ -293,7 +293,7 @@ PROPS = {
                        "Cnf's variable count is max label + 1 (IC); the residual hasher's pos/neg tables are selected and "
                        "indexed by the same literal (WP); counting accumulators are seeded with zero/one (FS). Not decided: "
                        "agreement of eval / condition / is_sat_partial / the hasher's 'only then' direction with their "
-                       "definitions. Added: PartialModel set/unset/get/is_set/lit_implied/lit_neg_implied and its constructors/iterators follow the two-set definition (PM, abstract interpretation over membership pairs); CnfHasher::hash skips a satisfied clause entirely, skips a falsified literal, multiplies an unassigned literal's prime and accumulates every clause product (HS); pos_lits/neg_lits keep their label indexing (LT). Added: Cnf::eval and is_sat_partial mark a clause satisfied exactly for a true literal, Cnf::condition drops the clause for the conditioning literal, drops the literal for its complement and keeps every other literal - each interpreted over all (relation, polarity) cases (LC). Added: LP — the bit-field packing of Literal (known-bits/provenance analysis of the generated accessors): the label and polarity fields do not overlap, each setter writes exactly what its getter reads, label(new(l,p)) = l and polarity(new(l,p)) = p, and negated/implies_true/implies_false equal their definitions by truth table. Added: WT — PartialModel::from_litvec assigns every listed literal's variable that literal's own polarity. Added: DP from_string — the string format writes a literal as a signed label without offset, so it is negative exactly for negative numbers (`0` is the positive literal of variable 0; defect D11, repaired). Added: EM — empty cases by abstract evaluation under the assumption that one collection is empty (loops over it do not run, len = 0, pop/last/next = None): Cnf::new, eval, to_dimacs, interaction_graph, average_span, force_order for the empty formula and for an empty clause. Added (round 9): DF - a label-indexed table (order positions, weights, watch lists, occurrence lists, vtree index) has no default entry: a checked lookup `get(label)` may refuse, but its missing case may not be papered over with a made-up entry shared by every unknown label (defaulting combinators; a `None` edge that reaches a normal return).",
+                       "definitions. Added: PartialModel set/unset/get/is_set/lit_implied/lit_neg_implied and its constructors/iterators follow the two-set definition (PM, abstract interpretation over membership pairs); CnfHasher::hash skips a satisfied clause entirely, skips a falsified literal, multiplies an unassigned literal's prime and accumulates every clause product (HS); pos_lits/neg_lits keep their label indexing (LT). Added: Cnf::eval and is_sat_partial mark a clause satisfied exactly for a true literal, Cnf::condition drops the clause for the conditioning literal, drops the literal for its complement and keeps every other literal - each interpreted over all (relation, polarity) cases (LC). Added: LP — the bit-field packing of Literal (known-bits/provenance analysis of the generated accessors): the label and polarity fields do not overlap, each setter writes exactly what its getter reads, label(new(l,p)) = l and polarity(new(l,p)) = p, and negated/implies_true/implies_false equal their definitions by truth table. Added: WT — PartialModel::from_litvec assigns every listed literal's variable that literal's own polarity. Added: DP from_string — the string format writes a literal as a signed label without offset, so it is negative exactly for negative numbers (`0` is the positive literal of variable 0; defect D11, repaired). Added: EM — empty cases by abstract evaluation under the assumption that one collection is empty (loops over it do not run, len = 0, pop/last/next = None): Cnf::new, eval, to_dimacs, interaction_graph, average_span, force_order for the empty formula and for an empty clause. Added (round 9): DF - a label-indexed table (order positions, weights, watch lists, occurrence lists, vtree index) has no default entry: a checked lookup `get(label)` may refuse, but its missing case may not be papered over with a made-up entry shared by every unknown label (defaulting combinators; a `None` edge that reaches a normal return). Added (round 10): DI - a field initialised with a function of a sibling field (eagerly derived) is stored again by every method that changes the sibling, also through interior mutability; PA - a call that opens a scope (enter/begin/open/...) whose counterpart exists in the crate is followed by the counterpart on every path to a return.",
     },
     "C16": {
         "level": "proof",
@@ -302,7 +302,7 @@ PROPS = {
                        "true edge of e.key == key (GL1); insert writes one Element{key,val,hash} of its own arguments into "
                        "the slot that get reads, grow re-inserts whole triples (GL2); the adapter's hash is a function of "
                        "(f,g,h) only (GL5); callers use one key and one hash for lookup and insert (GL4). Not decided: the "
-                       "consequence for builder results (needs C01). Added: each ITE table files a result under the very key it looks it up by, for both Ite variants (GL8); a persistent memo is keyed by every parameter used (GL9); cache accessors store the result unchanged (GL10); what is stored is what is returned (GL11).",
+                       "consequence for builder results (needs C01). Added: each ITE table files a result under the very key it looks it up by, for both Ite variants (GL8); a persistent memo is keyed by every parameter used (GL9); cache accessors store the result unchanged (GL10); what is stored is what is returned (GL11). Added (round 10): DI - a field initialised with a function of a sibling field (eagerly derived) is stored again by every method that changes the sibling, also through interior mutability; PA - a call that opens a scope (enter/begin/open/...) whose counterpart exists in the crate is followed by the counterpart on every path to a return. CP second-level memo: a remembered hit in front of an ITE table is keyed by, or adjusted for, the complement flag.",
     },
     "C17": {
         "level": "other",
@@ -312,7 +312,7 @@ PROPS = {
         "explanation": "The s-expression translation and the vtree mirror map each variant to its namesake with children in "
                        "order (DP); DIMACS signs map Neg to false and Pos to true in both parsers (DP); the CNF parser "
                        "subtracts one from the 1-based DIMACS variable (IC OneBased -> Index). Not decided: model-level "
-                       "equality of parsed formulas; JSON well-formedness (serde). Added: in the s-expression parser every special case of a negated operand still denotes the negation (Not(Not e) may only shortcut to e). Added after the fourth seeding round: the DIMACS readers keep every clause and every literal of the text (NC: every iteration of a loop over the items pushes onto its accumulator; an iterator chain from the items to collect() has no filter/skip/take/dedup) - a dropped clause gives the result extra models while everything downstream stays consistent. The serialisers keep their node-to-row table in a per-call map; should one of them start to use the per-node scratch slot instead, it falls under the leak rule of C10 (SP1: every externally reachable function that sets scratch clears it on every path to return) - row indices that survive a call refer to the previous call's table (floor 0: no such instance today). Added: LP — the bit-field packing of Literal (known-bits/provenance analysis of the generated accessors): the label and polarity fields do not overlap, each setter writes exactly what its getter reads, label(new(l,p)) = l and polarity(new(l,p)) = p, and negated/implies_true/implies_false equal their definitions by truth table. Added: DP from_string — the string format writes a literal as a signed label without offset, so it is negative exactly for negative numbers (`0` is the positive literal of variable 0; defect D11, repaired). Added: EM — empty cases by abstract evaluation under the assumption that one collection is empty (loops over it do not run, len = 0, pop/last/next = None): the DIMACS readers and the printer on an empty clause / no clause; LogicalExpr::from_dimacs unwraps None on both (known findings, not repaired: LogicalExpr has no constants). Added (round 9): UV - the s-expression variable collector visits every sub-formula and unites the sets (by return value or through an accumulator worker). TX - the text handed to the DIMACS parser is not thinned by a content test that formula text can meet (a line that is just `0` is a clause terminator / the empty clause). MP documented-order: variable_mapping numbers the names in the documented lexicographic order.",
+                       "equality of parsed formulas; JSON well-formedness (serde). Added: in the s-expression parser every special case of a negated operand still denotes the negation (Not(Not e) may only shortcut to e). Added after the fourth seeding round: the DIMACS readers keep every clause and every literal of the text (NC: every iteration of a loop over the items pushes onto its accumulator; an iterator chain from the items to collect() has no filter/skip/take/dedup) - a dropped clause gives the result extra models while everything downstream stays consistent. The serialisers keep their node-to-row table in a per-call map; should one of them start to use the per-node scratch slot instead, it falls under the leak rule of C10 (SP1: every externally reachable function that sets scratch clears it on every path to return) - row indices that survive a call refer to the previous call's table (floor 0: no such instance today). Added: LP — the bit-field packing of Literal (known-bits/provenance analysis of the generated accessors): the label and polarity fields do not overlap, each setter writes exactly what its getter reads, label(new(l,p)) = l and polarity(new(l,p)) = p, and negated/implies_true/implies_false equal their definitions by truth table. Added: DP from_string — the string format writes a literal as a signed label without offset, so it is negative exactly for negative numbers (`0` is the positive literal of variable 0; defect D11, repaired). Added: EM — empty cases by abstract evaluation under the assumption that one collection is empty (loops over it do not run, len = 0, pop/last/next = None): the DIMACS readers and the printer on an empty clause / no clause; LogicalExpr::from_dimacs unwraps None on both (known findings, not repaired: LogicalExpr has no constants). Added (round 9): UV - the s-expression variable collector visits every sub-formula and unites the sets (by return value or through an accumulator worker). TX - the text handed to the DIMACS parser is not thinned by a content test that formula text can meet (a line that is just `0` is a clause terminator / the empty clause). MP documented-order: variable_mapping numbers the names in the documented lexicographic order. Added (round 10): DI - a field initialised with a function of a sibling field (eagerly derived) is stored again by every method that changes the sibling, also through interior mutability; PA - a call that opens a scope (enter/begin/open/...) whose counterpart exists in the crate is followed by the counterpart on every path to a return.",
     },
     "C18": {
         "level": "proof",
@@ -324,7 +324,7 @@ PROPS = {
                        "Decides that the wrapper returns what the native operation returns for the same arguments; "
                        "does not decide anything about the native operations themselves.",
         "assumptions": ["the WF table (rules/wf.py) states the intended native operation of each export",
-                        "Box/pointer casts and robdd_builder_from_ptr are value-preserving marshalling"],
+                        "Box/pointer casts and robdd_builder_from_ptr are value-preserving marshalling Added (round 10): DI - a field initialised with a function of a sibling field (eagerly derived) is stored again by every method that changes the sibling, also through interior mutability; PA - a call that opens a scope (enter/begin/open/...) whose counterpart exists in the crate is followed by the counterpart on every path to a return."],
     },
     "C19": {
         "level": "other",
@@ -333,6 +333,6 @@ PROPS = {
                   ("NC", 4, has("Cnf::from_dimacs", "DTree::from_cnf")), ("MF", 4, None), ("EM", 3, has("DTree::from_cnf", "force_order", "average_span")), ("SH", 1, has("ite_helper:SH1")), ("UV", 1, None), ("TX", 1, has("Cnf::from_dimacs"))],
         "explanation": "In each tool the counted / serialised diagram is the compiled one, compiled on a builder whose order "
                        "comes from the same formula; counts are taken on smooth(_, num_vars); weights are keyed by the "
-                       "expression's own variable mapping (MP, SL2). Not decided: the printed numbers. Added after the fourth seeding round: VarOrder::new fills var_to_pos as the inverse of pos_to_var (VO inverse-by-construction); apply reads one table and smoothing the other. Added after the fourth seeding round: the DIMACS reader keeps every clause and every literal of the text (NC: every iteration of a loop over the items pushes onto its accumulator; an iterator chain from the items to collect() has no filter/skip/take/dedup) - a dropped clause gives the result extra models while everything downstream stays consistent. Added: MF — the `auto_minfill` order the tools compile under is a permutation of the variables by construction (see C14). Added: EM — empty cases by abstract evaluation under the assumption that one collection is empty (loops over it do not run, len = 0, pop/last/next = None): what the CNF tool's strategies (dtree plan, auto_force order) do on degenerate inputs: D13 repaired, the dtree of the empty formula is a known finding. Added: SH1 — the formula tool compiles Ite/Xor/Iff through ite_helper, whose decision node is node(first essential variable of (f,g,h), ite of the false-cofactors, ite of the true-cofactors). Added (round 9): UV, TX (see C17); GL6/GL9 of the BDD code (see C08).",
+                       "expression's own variable mapping (MP, SL2). Not decided: the printed numbers. Added after the fourth seeding round: VarOrder::new fills var_to_pos as the inverse of pos_to_var (VO inverse-by-construction); apply reads one table and smoothing the other. Added after the fourth seeding round: the DIMACS reader keeps every clause and every literal of the text (NC: every iteration of a loop over the items pushes onto its accumulator; an iterator chain from the items to collect() has no filter/skip/take/dedup) - a dropped clause gives the result extra models while everything downstream stays consistent. Added: MF — the `auto_minfill` order the tools compile under is a permutation of the variables by construction (see C14). Added: EM — empty cases by abstract evaluation under the assumption that one collection is empty (loops over it do not run, len = 0, pop/last/next = None): what the CNF tool's strategies (dtree plan, auto_force order) do on degenerate inputs: D13 repaired, the dtree of the empty formula is a known finding. Added: SH1 — the formula tool compiles Ite/Xor/Iff through ite_helper, whose decision node is node(first essential variable of (f,g,h), ite of the false-cofactors, ite of the true-cofactors). Added (round 9): UV, TX (see C17); GL6/GL9 of the BDD code (see C08). Added (round 10): DI - a field initialised with a function of a sibling field (eagerly derived) is stored again by every method that changes the sibling, also through interior mutability; PA - a call that opens a scope (enter/begin/open/...) whose counterpart exists in the crate is followed by the counterpart on every path to a return.",
     },
 }
